@@ -35,7 +35,17 @@ def controller_key(seed: bytes) -> Tuple[ed25519.Ed25519PrivateKey, bytes]:
 
 def pair_verify(post: Callable[[bytes], Tuple[int, bytes]], id_bytes: bytes, seed: bytes,
                 accessory_ltpk: bytes, accessory_id: bytes) -> str:
-    """Run M1..M4. Returns "verified" or a reason why not."""
+    """Run M1..M4 honestly. Returns "verified" or a reason why not."""
+    return pair_verify_ex(post, id_bytes, seed, accessory_ltpk, accessory_id)
+
+
+def pair_verify_ex(post: Callable[[bytes], Tuple[int, bytes]], id_bytes, seed: bytes,
+                   accessory_ltpk: bytes, accessory_id: bytes, proof: str = "sign", outer_ok: bool = True) -> str:
+    """Run M1..M4, possibly dishonestly. `id_bytes` is the identifier CLAIMED in M3 (None: item
+    left out); `seed` the Ed25519 private key the proof is really made with; `proof`: "sign"
+    (signature over the right material), "garbage" (64 arbitrary bytes), "wrong-material" (a real
+    signature over other bytes), "missing" (no proof item); `outer_ok=False` seals the M3 sub-TLV
+    with a key other than the exchange key. Returns "verified" or a reason why not."""
     sk, _ = controller_key(seed)
     eph = x25519.X25519PrivateKey.generate()
     eph_pub = eph.public_key().public_bytes(*RAW)
@@ -59,8 +69,16 @@ def pair_verify(post: Callable[[bytes], Tuple[int, bytes]], id_bytes: bytes, see
         ed25519.Ed25519PublicKey.from_public_bytes(accessory_ltpk).verify(inner.get(T_PROOF, b""), acc_pub + accessory_id + eph_pub)
     except InvalidSignature:
         return "accessory signature does not verify under its saved long-term key"
-    sub = tlv8.encode([(T_USER, id_bytes), (T_PROOF, sk.sign(eph_pub + id_bytes + acc_pub))])
-    enc = ChaCha20Poly1305(session).encrypt(_nonce(b"PV-Msg03"), sub, b"")
+    idb = id_bytes if id_bytes is not None else b""
+    items = [] if id_bytes is None else [(T_USER, id_bytes)]
+    if proof == "sign":
+        items.append((T_PROOF, sk.sign(eph_pub + idb + acc_pub)))
+    elif proof == "garbage":
+        items.append((T_PROOF, bytes((i * 37 + 11) & 0xFF for i in range(64))))
+    elif proof == "wrong-material":
+        items.append((T_PROOF, sk.sign(acc_pub + idb + eph_pub)))
+    key = session if outer_ok else _hkdf(b"\x42" * 32)
+    enc = ChaCha20Poly1305(key).encrypt(_nonce(b"PV-Msg03"), tlv8.encode(items), b"")
     code, body = post(tlv8.encode([(T_SEQ, b"\x03"), (T_ENC, enc)]))
     if code != 200:
         return f"M4 HTTP {code}"
